@@ -133,7 +133,7 @@ def sig_gelf_retry(c, i, m, k):
 
 CFG = {
     "manifest": {
-        "text": "Proof: Lean theorems (Props/C19.lean) state, for the executable model of Batch.ForEach and of the out functions of the file, http, elasticsearch, splunk, loki, gelf and kafka outputs, that unframing the payload built for a batch gives the deliverable events once each, in order (under the stated encoder assumption), that the payload does not depend on the reused worker buffer, that kafka record values are disjoint views, and that the 413 split recursion delivers every event that is not refused on its own; the model is tied to the real plugins by running both on generated batches on every run.",
+        "text": "Proof: Lean theorems (Props/C19.lean) state, for the executable model of Batch.ForEach and of the out functions of the file, http, elasticsearch, splunk, loki, gelf and kafka outputs, that unframing the payload built for a batch gives the deliverable events once each, in order (under the stated encoder assumption), that the payload does not depend on the reused worker buffer, that kafka record values are disjoint views and every record / bulk action is routed to its own event's topic / index, and that the 413 split recursion delivers every event that is not refused on its own; the model is tied to the real plugins by running both on generated batches on every run.",
         "note": "Trusted: Lean kernel + the three standard axioms; fdmodel compilation; harness. Oracles (assumed, validated on every case): insane-json Encode / Dig.AsString, encoding/json.Marshal of the Loki entry, the GELF field conversion, HTTP status codes. Not modelled: gzip, TLS, batcher timing, Loki time.Now() substitution, GELF timestamp from time.Now().",
         "technique": "Lean 4 proof (unframe∘frame = id per sink, induction on the split range) + differential correspondence against the real plugins (httptest server, temp file, TCP listener, fake Kafka client)",
     },
@@ -145,7 +145,7 @@ CFG = {
         "loki_bad_timestamp": sig_loki_bad_timestamp,
         "gelf_retry": sig_gelf_retry,
     },
-    "rule": "exhaustive: every status script over {200,413} answering every request of the split recursion for batches of 1..4 events (thorough: 1..5, plus {200,413,500,400} for 1..3), through elasticsearch and http alternately; then per sink random batches of 0..8 events from internal/jt trees with adversarial routing values (quotes, newlines, NUL, invalid UTF-8, non-strings), child / child-parent kinds, 1..3 successive batches through one worker, buffer limits 0..4096, PRNG status scripts with retries; then a malformed stream (raw control bytes inside JSON strings, Loki timestamps that are not UnixNano); distinct = distinct case line; non-trivial = at least one deliverable event",
+    "rule": "exhaustive: every status script over {200,413} answering every request of the split recursion for batches of 1..4 events (thorough: 1..5, plus {200,413,500,400} for 1..3), through elasticsearch and http alternately; then per sink random batches of 0..8 events from internal/jt trees with adversarial routing values (quotes, newlines, NUL, invalid UTF-8, non-strings), child / child-parent kinds, 1..3 successive batches through one worker (kafka also 2..4 equal-width batches reusing record slots with and without a topic field), buffer limits 0..4096, PRNG status scripts with retries; then a malformed stream (raw control bytes inside JSON strings, Loki timestamps that are not UnixNano); distinct = distinct case line; non-trivial = at least one deliverable event",
     "corr_name": "Payload.{fileRun,gelfRun,kafkaRun,httpLikeRun ∘ (httpOut|esOut|splunkOut|lokiOut)} = bytes written / records produced / request bodies and statuses observed from the real plugins' out functions",
     "trusted_base": [
         "oracles evaluated by the generator on the concrete event and shipped in the case line: insane-json Root.Encode, Dig(..).AsString(), field-name escaping, encoding/json.Marshal of the Loki entry parts, gelf formatEvent (through the verif export VerifFormat)",
